@@ -611,16 +611,48 @@ def _slot_encoding(ctx, rc):
 
 
 def r2_7(ctx, rc):
-    """Order inside rollback: remove new files and directories, re-create
-    the old directories, restore the backups - restoration is last."""
+    """Order inside rollback: the new files and directories are removed
+    before the backups are restored (restore_all skips a path that is still
+    occupied); and rollback itself does not occupy a backed-up path: the
+    previous build's directories are re-created only after the restore (or
+    filtered against the backups) - a path that the previous build had as a
+    directory, that the user replaced by a file and that the failed build
+    overwrote would otherwise be re-created as a directory and its backup
+    skipped and lost."""
     N = _names(ctx)
     rb = N['rollback']
     sg = ctx.helpers_graph(rb, stop=(N['remover'].qualname,
                                      N['dir_remover'].qualname,
                                      N['create_dirs'].qualname))
     rs = N['restore'].qualname
-    for first in (N['remover'].qualname, N['dir_remover'].qualname,
-                  N['create_dirs'].qualname):
+    cd = N['create_dirs'].qualname
+    csites = [x for x in sg.nodes if Q.is_call(x, cd)]
+    key = '%s does not occupy a backed-up path' % rb.qualname
+    if not csites:
+        rc.violation('rollback-step-missing | ' + cd,
+                     'rollback never calls %s' % cd, rb.file, key=key)
+    else:
+        w = Q.first_unguarded(sg, [sg.entry], lambda x: Q.is_done(x, rs),
+                              lambda x: Q.is_call(x, cd))
+        filtered = all(any(
+            (o[0] in ('attr', 'call') and 'FileBackups' in str(o[1]))
+            for o in ctx.H.origins(x.call.args[0], x.func, x.cn))
+            for x in csites if x.call.args)
+        if w and not filtered:
+            rc.violation(
+                'rollback-recreate-before-restore | ' + rb.qualname,
+                'rollback re-creates the previous build\'s directories '
+                'before it restores the backups, without excluding the '
+                'backed-up paths: where the previous build had a directory '
+                'that was replaced by a regular file before this build and '
+                'this build overwrote that file, the directory is '
+                're-created in the file\'s place, restore_all skips the '
+                'backup ("existing directory") and the file is lost',
+                csites[0].where(), sg.describe_path(w), key=key)
+        else:
+            rc.ok({'order': 'restore_all, then ' + cd} if not w else
+                  {'filtered_by': 'FileBackups'}, key=key)
+    for first in (N['remover'].qualname, N['dir_remover'].qualname):
         sites = [x for x in sg.nodes if Q.is_call(x, first)]
         key = '%s before %s in %s' % (first, rs, rb.qualname)
         if not sites:
@@ -1027,7 +1059,7 @@ RULES = [
     ('R2.5', 'the build runs inside the with block owning the backups', r2_5),
     ('R2.6', 'backups are moved, never copied', r2_6),
     ('R2.6b', 'every backup gets its own slot', r2_6b),
-    ('R2.7', 'rollback order: remove, re-create, restore last', r2_7),
+    ('R2.7', 'rollback order: remove before restore; no directory re-created over a backup', r2_7),
     ('R2.8', 'rollback undo sets are complete', r2_8),
     ('R2.9', 'a failed cache write is compensated', r2_9),
     ('R2.10', 'coverage matrix backup guard x removal guard', r2_10),
